@@ -35,8 +35,10 @@ def C05(tier, rng):
     for m in big_msgs(rng, tier) + limit_values(rng) + boundary_msgs(rng):
         cs.append(enc_case(m, 'big/limit'))
     for off in range(0x3FFF - 24, 0x3FFF + 4, sz(tier, 2, 1)):
-        for m in (straddle_msg(off), high_offset_msg(rng, off)):
+        for m in (straddle_msg(off), high_offset_msg(rng, off), straddle_msg(off, newtype=True)):
             if m: cs.append(enc_case(m, 'straddle'))
+    for pair in look_alike_name_pairs():
+        cs.append(enc_case(names_msg_a(pair), 'look-alike'))
     for _ in range(sz(tier, 2000, 20000)):
         rr = rand_rr(rng, None, [])
         cs.append(Case('enc.rr %s' % prr(rr), 'rr%d' % rr['ty']))
@@ -99,6 +101,12 @@ def C06(tier, rng):
     for step in (5, 9, 15, 30, 62):
         names = nested_long_names(step)
         cs.append(enc_case(names_msg(names + names[::-1], ['o'] * len(names) + ['r'] * len(names)), 'nested-long'))
+    for pair in look_alike_name_pairs():
+        cs.append(enc_case(names_msg_a(pair), 'look-alike'))
+        cs.append(enc_case(names_msg(list(pair) + [(b'p',) + pair[1]], 'qor'), 'look-alike'))
+    for off in range(0x3FFF - 48, 0x4000 + 8, sz(tier, 3, 1)):
+        m = straddle_msg(off, newtype=True)
+        if m: cs.append(enc_case(m, 'straddle-newtype'))
     # long random sequences
     for _ in range(sz(tier, 60, 300)):
         pool = []
@@ -141,6 +149,13 @@ def C07(tier, rng):
         m = msg_with([{'ty': 2, 'name': n, 'ttl': 0, 'cls': 1, 'f': [n]} for n in names])
         b, _ = render(m, Layout(random.Random(step), compress=1.0))
         cs.append(Case('dec.dns %s' % hx(b), 'nested-long'))
+    e31 = b'\xc3\xa9' * 31
+    for k in (3, 4, 5, 7):
+        w = b''.join(bytes([len(e31)]) + e31 for _ in range(k)) + b'\0'
+        cs.append(Case('dec.name %s' % hx(w), 'multibyte-long'))
+        cs.append(Case('dec.dns %s' % hx(b'\0\0\0\0\0\1' + b'\0' * 6 + w + b'\0\1\0\1'), 'multibyte-long'))
+    q1 = b''.join(bytes([len(e31)]) + e31 for _ in range(3)) + b'\0'
+    cs.append(Case('dec.dns %s' % hx(b'\0\0\0\0\0\2' + b'\0' * 6 + q1 + b'\0\1\0\1' + q1[:-1] + b'\xc0\x0c' + b'\0\1\0\1'), 'multibyte-long'))
     # labels between pointers: more than 17 hops with no long run of back-to-back pointers; cycles through a label
     for k in range(14, 40):
         cs.append(Case('dec.dns %s' % hx(hop_chain_msg(k)), 'label-hops%d' % k))
@@ -183,6 +198,16 @@ def C08(tier, rng):
         # the last record is a name-bearing one: labels written beyond offset 65,535
         k = total - 12 - 1 - 10 - 30
         cs.append(enc_case(msg_with([{'ty': 10, 'name': (), 'ttl': 0, 'cls': 1, 'f': [bytes(k)]}, {'ty': 2, 'name': (b'tail', b'x'), 'ttl': 0, 'cls': 1, 'f': [(b'ns', b'tail', b'x')]}]), 'tail%d' % total))
+    # a multi-label name that begins below offset 65,535 and ends beyond it, at every alignment, in every position
+    for labels, lablen in ((4, 50), (2, 63), (20, 10), (100, 1)):
+        name = tuple(bytes([0x61 + i % 26]) * lablen for i in range(labels))
+        tl = labels * (lablen + 1) + 1
+        for start in range(65535 - tl - 2, 65536 + 2, sz(tier, 11, 1)):
+            fill = start - (12 + 11)
+            filler = {'ty': 10, 'name': (), 'ttl': 0, 'cls': 1, 'f': [bytes(fill)]}
+            cs.append(enc_case(msg_with([filler, {'ty': 2, 'name': name, 'ttl': 0, 'cls': 1, 'f': [(b'ns',) + name]}]), 'name-over-64k'))
+            cs.append(enc_case(msg_with([filler, {'ty': 33, 'name': (), 'ttl': 0, 'cls': 1, 'f': [1, 2, 3, name]}]), 'name-over-64k'))
+            cs.append(enc_case(msg_with([filler, {'ty': 15, 'name': (), 'ttl': 0, 'cls': 1, 'f': [1, name]}]), 'name-over-64k'))
     for off in range(0x3FFF - 20, 0x3FFF + 2, sz(tier, 3, 1)):
         for m in (straddle_msg(off), high_offset_msg(rng, off)):
             if m: cs.append(enc_case(m, 'straddle'))
@@ -246,6 +271,25 @@ def C10(tier, rng):
         h = n.to_bytes(2, 'big').hex()
         for e in ('type', 'class', 'qtype', 'qclass', 'flags'):
             cs.append(Case('dec.%s %s' % (e, h), 'dec2'))
+    # elements carrying names at and around the 255-octet limit, in every name position
+    for n in limit_names():
+        cs.append(Case('enc.name %s' % pname(n), 'limit-name'))
+        cs.append(Case('enc.question %s' % pquestion({'name': n, 'qtype': 1, 'qclass': 1}), 'limit-name'))
+        q = {'name': n, 'qtype': 1, 'qclass': 1}
+        cs.append(Case('enc.dns %s' % pmsg(msg_with([], qs=[q])), 'limit-name'))
+        for ty in (1, 2, 6, 15, 33, 39, 64):
+            rr = rand_rr(random.Random(ty), ty, [])
+            rr['name'] = n
+            cs.append(Case('enc.rr %s' % prr(rr), 'limit-name'))
+            cs.append(Case('enc.struct %s' % prr(rr), 'limit-name'))
+            cs.append(Case('enc.dns %s' % pmsg(msg_with([rr])), 'limit-name', exp=('EMBED', prr(rr))))
+            rr2 = rand_rr(random.Random(ty), ty, [])
+            rr2['name'] = n[-1:]
+            if ty in (64, 65): rr2['target'] = n
+            elif ty != 1: rr2['f'] = [n if kind[0] == 'd' else v for (fname, kind), v in zip(TABLE[ty][2], rr2['f'])]
+            cs.append(Case('enc.rr %s' % prr(rr2), 'limit-name'))
+            cs.append(Case('enc.struct %s' % prr(rr2), 'limit-name'))
+            cs.append(Case('enc.dns %s' % pmsg(msg_with([rr2])), 'limit-name', exp=('EMBED', prr(rr2))))
     # element codecs after a failing call of the same kind on the same thread, and stand-alone records whose
     # RDATA names point at the owner name at offset 0
     bad = ['enc.rr %s' % prr({'ty': 13, 'name': (b'a', b'example'), 'ttl': 0, 'cls': 1, 'f': [b'c' * 300, b'x']}),
@@ -267,6 +311,16 @@ def C10(tier, rng):
             r = Renderer(Layout(random.Random(1), compress=1.0)); r.rr(rr)
             cs.append(Case('dec.rr %s' % hx(bytes(r.out)), 'standalone-ptr0'))
     return cs
+
+def limit_names():
+    """names of 253, 254 and 255 wire octets (the last is the maximum) in several label shapes"""
+    out = []
+    for total in (253, 254, 255):
+        out.append(tuple([b'a' * 63] * 3 + [b'b' * (total - 1 - 3 * 64 - 1)]))
+        k = (total - 1) // 2
+        out.append(tuple([b'x'] * k) if 2 * k + 1 == total else tuple([b'x'] * (k - 1) + [b'yy']))
+        out.append(tuple([b'm' * 30] * 8 + [b'n' * (total - 1 - 8 * 31 - 1)]) if total - 1 - 8 * 31 - 1 > 0 else tuple([b'm' * 30] * 7 + [b'n' * (total - 1 - 7 * 31 - 1 - 2), ] + [b'z']))
+    return out
 
 def all_flags(rcodes=RCODES_4BIT):
     out = []
@@ -432,6 +486,9 @@ def C13(tier, rng):
         # the encoder treats equal names as interchangeable targets: octets may change only in ASCII case
         if a:
             cs.append(enc_case(names_msg([a, flip, (b'p',) + flip, other]), 'compress-eq'))
+    for pair in look_alike_name_pairs():
+        cs.append(Case('text.eq %s %s' % (pname(pair[0]), pname(pair[1])), 'eq-look-alike'))
+        cs.append(enc_case(names_msg_a(pair), 'compress-look-alike'))
     for pair in itertools.product(SPECIAL, repeat=2):
         cs.append(Case('text.eq %s %s' % (pname((pair[0], b'x')), pname((pair[1], b'x'))), 'eq-special'))
         cs.append(enc_case(names_msg([(pair[0], b'example'), (pair[1], b'example')]), 'compress-special'))
